@@ -9,7 +9,7 @@ old one *exactly* doubled: clock, increment and slew increment are shifted left 
 same decisions in `poly_fir_fade_d` — same number of pairs, same abandoned pair — and stay exactly doubled; so the
 assertion holds in every chunk of such a fade.  The hypothesis on `occupancy0` is what F35 violated (an up-switch earlier in
 the same `vr_process` call made a coarser stage the coarsest *after* `occupancy0` had been computed); since the repair
-(`alignOcc`) it is an invariant of the loop: `chunk_OccInv`, `loop_OccInv`, `chunk_down_switch_aligned`.
+(`switchOcc`) it is an invariant of the loop: `chunk_OccInv`, `loop_OccInv`, `chunk_down_switch_aligned`.
 -/
 namespace Soxr.Vr
 variable {ρ : Type}
@@ -106,7 +106,7 @@ theorem kernels_doubled (s : St ρ) (olen mn mx : Int) (hfade : s.fade ≠ 0) (h
 /-- `switchStage` sets the new current stream's `len` from `occupancy0` -/
 theorem switchStage_len (s : St ρ) (dif occ0 : Int) :
     (switchStage s dif occ0).cur.len = shiftr occ0 (s.cur.sn + dif) := by
-  unfold switchStage
+  unfold switchStage switchPrep
   dsimp only
   generalize hs2 : (if dif > 0 then ({ s with inc := decide (dif > 0), fo := s.cur, cur := { s.cur with sn := s.cur.sn + dif } } : St ρ)
       else { s with inc := decide (dif > 0), fo := s.cur, cur := { s.cur with sn := s.cur.sn + dif }, sw := s.cur.sn + dif }) = s2
@@ -205,18 +205,75 @@ theorem chunkStart_cur (cfg : Cfg ρ) (s : St ρ) (rem : Nat) :
   · exact ⟨rfl, rfl⟩
   · split <;> exact ⟨rfl, rfl⟩
 
-theorem alignOcc_up (occ0 sn : Int) (h : 0 ≤ sn + 1) : alignOcc occ0 sn 1 % 2 ^ (sn + 1).toNat = 0 := by
-  unfold alignOcc
+theorem switchPrep_ctl (s : St ρ) (dif : Int) :
+    (switchPrep s dif).ctl = { s.ctl with inc := decide (dif > 0), fo := s.cur, cur := { s.cur with sn := s.cur.sn + dif } } := by
+  unfold switchPrep
+  dsimp only
+  rw [switchFifoB_ctl, switchFifoA_ctl]
+  split <;> rfl
+
+theorem switchPrep_sn (s : St ρ) (dif : Int) : (switchPrep s dif).cur.sn = s.cur.sn + dif := by
+  have := congrArg (fun c : Ctl ρ => c.cur.sn) (switchPrep_ctl s dif)
+  exact this
+
+/-- after an up-switch `occupancy0` is a whole number of samples of the new stage -/
+theorem switchOcc_up (s : St ρ) (occ0 : Int) (h : 0 ≤ s.cur.sn + 1) : switchOcc s 1 occ0 % 2 ^ (s.cur.sn + 1).toNat = 0 := by
+  unfold switchOcc
+  dsimp only
+  rw [switchPrep_sn]
   split
   · exact Int.mul_emod_left _ _
   · rename_i hn
-    have : sn + 1 = 0 := by omega
+    have : s.cur.sn + 1 = 0 := by omega
     rw [this]
     simp
 
-theorem alignOcc_down (occ0 sn : Int) : alignOcc occ0 sn (-1) = occ0 := by
-  unfold alignOcc
+/-- a down-switch leaves `occupancy0` alone -/
+theorem switchOcc_down (s : St ρ) (occ0 : Int) : switchOcc s (-1) occ0 = occ0 := by
+  unfold switchOcc
+  dsimp only
   rw [if_neg (by omega)]
+
+/-- `occupancy0` never grows at a switch -/
+theorem switchOcc_le (s : St ρ) (dif occ0 : Int) : switchOcc s dif occ0 ≤ occ0 := by
+  unfold switchOcc
+  dsimp only
+  split
+  · have hp : (0 : Int) < 2 ^ (switchPrep s dif).cur.sn.toNat := Int.pow_pos (by decide)
+    generalize hX : shiftl _ (switchPrep s dif).cur.sn = X
+    have h1 := Int.ediv_mul_le (min occ0 X) (Int.ne_of_gt hp)
+    have h2 : min occ0 X ≤ occ0 := Int.min_le_left _ _
+    omega
+  · exact Int.le_refl _
+
+theorem shiftl_natCast (x : Int) (k : Nat) (h : 1 ≤ k) : shiftl x (k : Int) = x * 2 ^ k := by
+  unfold shiftl shiftr
+  rw [if_pos (by omega), Int.neg_neg, Int.toNat_natCast]
+
+theorem shiftr_natCast (x : Int) (k : Nat) : shiftr x (k : Int) = x / 2 ^ k := by
+  unfold shiftr
+  rw [if_neg (by omega), Int.toNat_natCast]
+
+/-- **The restarted stage is not read beyond what it holds (F36 repaired).**  After an up-switch to a half-band stage the
+    new current stream's `len` — the samples it may consume in this call — is at most the occupancy of that stage's FIFO
+    minus `2·HALF_FIR_LEN_2 + POLY_FIR_LEN_D/2` (the offset of `stage_read_p` plus the look-ahead of the interpolator): the
+    interpolator's highest read index `2·HALF_FIR_LEN_2 + (len − 1) + POLY_FIR_LEN_D/2` is inside the FIFO. -/
+theorem switch_up_len_within_stage (s : St ρ) (occ0 : Int) (hsn : 0 ≤ s.cur.sn) :
+    (switchStage s 1 (switchOcc s 1 occ0)).cur.len ≤
+      max 0 (((switchPrep s 1).stg (s.cur.sn + 1)).occ - 2 * (H2 : Int) - ((PD / 2 : Nat) : Int)) := by
+  rw [switchStage_len]
+  unfold switchOcc
+  dsimp only
+  rw [switchPrep_sn, if_pos ⟨by decide, by omega⟩]
+  obtain ⟨k, hk⟩ := Int.eq_ofNat_of_zero_le (show 0 ≤ s.cur.sn + 1 by omega)
+  have hk1 : 1 ≤ k := by omega
+  generalize max 0 (((switchPrep s 1).stg (s.cur.sn + 1)).occ - 2 * (H2 : Int) - ((PD / 2 : Nat) : Int)) = A
+  rw [hk, shiftl_natCast _ _ hk1, shiftr_natCast, Int.toNat_natCast]
+  have hp : (0 : Int) < 2 ^ k := Int.pow_pos (by decide)
+  generalize (2 : Int) ^ k = P at *
+  rw [Int.mul_ediv_cancel _ (Int.ne_of_gt hp)]
+  have h2 : min occ0 (A * P) ≤ A * P := Int.min_le_right _ _
+  exact Int.ediv_le_of_le_mul hp h2
 
 theorem pow_dvd_of_succ (x : Int) (k : Nat) (h : x % 2 ^ (k + 1) = 0) : x % 2 ^ k = 0 := by
   have hd : (2 : Int) ^ (k + 1) ∣ x := Int.dvd_of_emod_eq_zero h
@@ -239,15 +296,15 @@ theorem chunk_OccInv (cfg : Cfg ρ) (olen0 : Nat) (l : LoopSt ρ) (h : OccInv l)
   rw [hsn]
   by_cases hsw : doesSwitch A.1 = true
   · rw [if_pos hsw, if_pos hsw]
-    obtain ⟨_, _, _, _, _, _, _, _, s9, _⟩ := switchStage_spec A.1 (stageDif A.1) (alignOcc l.occ A.1.cur.sn (stageDif A.1))
+    obtain ⟨_, _, _, _, _, _, _, _, s9, _⟩ := switchStage_spec A.1 (stageDif A.1) (switchOcc A.1 (stageDif A.1) l.occ)
     rw [s9, switchStage_len]
     refine ⟨fun hpos => ?_, rfl⟩
     rcases stageDif_cases A.1 with hd | hd | ⟨hd, _⟩
     · unfold doesSwitch at hsw; rw [hd] at hsw; simp at hsw
     · rw [hd] at hpos ⊢
-      exact alignOcc_up _ _ hpos
+      exact switchOcc_up _ _ hpos
     · rw [hd] at hpos ⊢
-      rw [alignOcc_down]
+      rw [switchOcc_down]
       have hge : 0 ≤ l.st.cur.sn := by rw [← a1]; omega
       have := h1 hge
       rw [← a1] at this
@@ -324,7 +381,7 @@ theorem chunk_down_switch_aligned (cfg : Cfg ρ) (olen0 : Nat) (l : LoopSt ρ) (
   unfold chunk
   dsimp only
   generalize hA : chunkStart cfg l.st (olen0 - l.od0) = A at a1 a2 hsw hdif hisd
-  simp only [hsw, hdif, if_true, alignOcc_down]
+  simp only [hsw, hdif, if_true, switchOcc_down]
   have hdiv : l.occ % 2 ^ A.1.cur.sn.toNat = 0 := by rw [a1]; exact h1 (by omega)
   obtain ⟨d1, d2, d3, d4⟩ := switch_down_doubled A.1 l.occ (by omega) hisd (by rw [a1, a2]; exact h2) hdiv
   obtain ⟨k1, k2⟩ := kernels_doubled (switchStage A.1 (-1) l.occ) A.2 (chunkMn l (-1))
